@@ -5,7 +5,7 @@
    [symbolize mode e script p = Out p' err calls]: Symbolizer.Symbolize(mode, e_srcs e, p) left the
    profile as p' (changed in place, also when it returns an error: err = true) after making
    the plug-in calls [calls]. *)
-From PV Require Import M_Symbolize M_SymbolizeFetch S_Symbolize L_Symbolize L_SymbolizeValid L_SymbolizeCheck L_SymbolizeFlags L_SymbolizeFetch.
+From PV Require Import M_Symbolize M_SymbolizeFetch S_Symbolize L_Symbolize L_SymbolizeValid L_SymbolizeCheck L_SymbolizeFlags L_SymbolizeFetch L_SymbolizeDrop.
 Open Scope Z_scope.
 
 (* the modelled code has no reachable panic (demanglerModeToOptions is only given modes it knows) *)
@@ -214,6 +214,29 @@ Theorem cli_fails_only_when : forall e script c mode absurl src p calls,
      (symbolize mode (with_srcs e srcs) script p1 = Out p2 false calls /\ ~ id_headroom p1 p2)).
 Proof. exact fetch_cli_fails_lemma. Qed.
 Print Assumptions cli_fails_only_when.
+
+(* -- drop_frames / keep_frames: fetchProfiles calls RemoveUninteresting right after Symbolize; names
+      only exist after symbolization, so this is where symbolizing could change stack depths.  With
+      bare alternations of literal names (remove_uninteresting_alt = C11's Prune with whole-name
+      matching): NOTHING is cut unless the whole simplified name of some function is an alternative
+      of drop_frames and not of keep_frames -- a name that merely starts with / contains / ends with
+      an alternative never costs a frame -- and then the pipeline is the one of the theorems above. -- *)
+Theorem drop_frames_cut_nothing_unless_a_whole_name_matches : forall p,
+  droppable p = false -> remove_uninteresting_alt p = p.
+Proof. exact remove_uninteresting_alt_identity. Qed.
+Print Assumptions drop_frames_cut_nothing_unless_a_whole_name_matches.
+
+Theorem pipeline_with_drop_frames_is_plain_without_matching_names : forall plug c mode absurl src p,
+  (forall srcs p1 p2 err ok calls, plug mode srcs p1 = Some (p2, err, ok, calls) -> droppable p2 = false) ->
+  fetch_cli_ru plug c mode absurl src p = fetch_cli plug c mode absurl src p /\
+  fetch_generic_ru plug mode absurl src p = fetch_generic plug mode absurl src p.
+Proof. intros plug c mode absurl src p H. split; [now apply fetch_cli_ru_plain | now apply fetch_generic_ru_plain]. Qed.
+Print Assumptions pipeline_with_drop_frames_is_plain_without_matching_names.
+
+Example droppable_example :
+  alt_match "malloc|free|operator new" "mallocator_run" = false /\ alt_match "malloc|free|operator new" "list_prefree_all" = false /\
+  alt_match "malloc|free|operator new" "my operator new" = false /\ alt_match "malloc|free|operator new" "free" = true.
+Proof. vm_compute. repeat split. Qed.
 
 (* F34: inside the class the frame condition fails on the unchanged tree *)
 Definition ex_env_f34 : env := {| e_http := fun _ => false; e_symz := fun _ => EmptyString; e_filt := fun _ s => s; e_srcs := [] |}.
